@@ -42,6 +42,28 @@ CLAIMS = {
         note="Trusted: CPython, z3, stream double contract; counters explored for 0,1,2 + one larger value; MSM masks above the header enumerated by popcount shape; "
              "text messages capped at 150 paths per (identity,length) - caps are listed as truncations in the evidence.",
         ref="DESIGN.md section 5 C04", technique=TECH),
+    "C02": dict(
+        text="Bounded symbolic execution of the real reader (and SocketWrapper over a socket double) on structured streams: every sequence of items inside the bound "
+             "(frames incl. zero-length and 1023-byte, NMEA, UBX incl. a 257-byte one, inert noise) with payloads, CRC bytes, NMEA bodies and UBX contents as solver "
+             "variables. The list of returned raws must equal, term by term and in order, the generator's own list of frames, and iteration must end cleanly; "
+             "socket runs enumerate the placement of receive cuts as solver decisions.",
+        note="Trusted: CPython, z3, doubles' contracts; a generated frame is 'valid' by assuming the code's own CRC result zero (C08 ties it to CRC-24Q; concrete witnesses "
+             "are rebuilt with an independent CRC); message numbers by assumption (4072, 1070, 1005).",
+        ref="DESIGN.md section 5 C02", technique=TECH),
+    "C05": dict(
+        text="Bounded symbolic execution of the real reader on streams of 2-3 frames with every subset damaged: a frame is damaged by assuming the code's own CRC result "
+             "non-zero over symbolic payload/CRC bytes (every content the CRC rejects, incl. undecodable content), good by assuming it zero. Returned frames, handler calls, "
+             "raised exception types and their order are checked per error mode; 8-byte frames with explicit 1-3 bit / burst<=24 error patterns go through the real CRC directly.",
+        note="Trusted: CPython, z3, stream double; that every damage class yields a non-zero CRC is C08's lemma chain on the real loop body.",
+        ref="DESIGN.md section 5 C05", technique=TECH),
+    "C08": dict(
+        text="Fold extraction of the real calc_crc24q (pre/step/post regenerated from the current source) and z3 proofs over ALL 2^24 states x 2^8 octets of the step: "
+             "equals long division by 0x1864CFB and the table form, range invariant, linearity, non-zero preservation, parity, burst<=24, two-bit errors with every gap "
+             "up to the bound, appended CRC zeroes the register (and uniquely). By induction on length (<=1029 bytes) these give correctness and the detection guarantees. "
+             "RTCMReader.parse on symbolic frames: rejects iff the checksum bit is set and the CRC over exactly the buffer is non-zero; trailer unused with validation off; "
+             "history independence of the helper.",
+        note="Trusted: CPython, z3 (thorough: lemmas re-checked with cvc5 and z3 4.8.12); the induction composing the per-step lemmas is stated, not mechanised.",
+        ref="DESIGN.md section 5 C08", technique="SMT proofs (z3 bit-vectors) of inductive step lemmas on the fold-extracted real loop body + bounded symbolic execution of parse()"),
 }
 
 NA_REASON = "check under construction in this build round (see DESIGN.md); will be claimed once its harness lands"
